@@ -1,0 +1,66 @@
+//go:build verif
+
+package tree
+
+// Read-only accessors used by the /verif C03 check (cascade).  Nothing here is
+// compiled without the `verif` build tag.
+
+import (
+	"fmt"
+
+	"github.com/benoitkugler/webrender/css/selector"
+	"github.com/benoitkugler/webrender/utils"
+)
+
+// VerifC03Precedence exposes declarationPrecedence.
+func VerifC03Precedence(origin string, important bool) uint8 {
+	return declarationPrecedence(origin, important)
+}
+
+// VerifC03Weight mirrors the fields of weight.
+type VerifC03Weight struct {
+	Precedence     uint8
+	StyleAttribute bool
+	Specificity    [3]int
+}
+
+// VerifC03WeightLess exposes weight.Less.
+func VerifC03WeightLess(a, b VerifC03Weight) bool {
+	wa := weight{precedence: a.Precedence, styleAttribute: a.StyleAttribute, specificity: selector.Specificity(a.Specificity)}
+	wb := weight{precedence: b.Precedence, styleAttribute: b.StyleAttribute, specificity: selector.Specificity(b.Specificity)}
+	return wa.Less(wb)
+}
+
+// VerifC03NewCSS is newCSS with a caller supplied fetcher, base URL and device
+// media type (NewCSSDefault fixes them).
+func VerifC03NewCSS(input utils.ContentInput, baseUrl string, fetcher utils.UrlFetcher, mediaType string) (CSS, error) {
+	return newCSS(input, baseUrl, fetcher, false, mediaType, nil, nil, nil, nil)
+}
+
+type VerifC03Decl struct {
+	Name      string
+	Value     string // fmt %v of the declared value
+	Important bool
+}
+
+// VerifC03Rule is one entry of the flattened rule list of a sheet.
+type VerifC03Rule struct {
+	Specificities [][3]int // one per selector of the group
+	Decls         []VerifC03Decl
+}
+
+// VerifC03Matcher dumps the flattened rule list preprocessStylesheet built.
+func VerifC03Matcher(c CSS) []VerifC03Rule {
+	out := make([]VerifC03Rule, 0, len(c.matcher))
+	for _, m := range c.matcher {
+		var r VerifC03Rule
+		for _, sel := range m.selector {
+			r.Specificities = append(r.Specificities, [3]int(sel.Specificity()))
+		}
+		for _, d := range m.declarations {
+			r.Decls = append(r.Decls, VerifC03Decl{Name: d.Name.String(), Value: fmt.Sprintf("%v", d.Value), Important: d.Important})
+		}
+		out = append(out, r)
+	}
+	return out
+}
